@@ -1,12 +1,5 @@
 #!/bin/sh
-# runs every seeded change against the quick tier of the check(s) that should catch it; prints one line each
+# runs every seeded change (optionally only those whose id starts with $1) against the quick tier of the check that should catch it,
+# $2 at a time (default 3); prints one line each
 cd /verif
-for d in seeded/${1:-C}*/; do
-  id=$(basename $d)
-  prop=$(python3 -c "import json;m=json.load(open('$d/meta.json'));print(m.get('check', m['property']))")
-  tier=$(python3 -c "import json;m=json.load(open('$d/meta.json'));print(m.get('tier','quick'))")
-  expect=$(python3 -c "import json;m=json.load(open('$d/meta.json'));print(m.get('expect','caught'))")
-  out=$(timeout 3000 tools/mutant.sh /verif/$d/patch.diff --tier $tier $prop 2>&1 | grep -E "exit=|APPLY" | head -1 | cut -c1-200)
-  if [ "$expect" = not_caught ]; then echo "NEUTRAL $id (no longer a defect, see meta.json) :: $out"; continue; fi
-  case "$out" in *"exit=1"*) echo "CAUGHT $id by $prop :: $out";; *) echo "MISSED $id by $prop :: $out";; esac
-done
+ls seeded | grep -E "^${1:-C}" | grep -E "^C[0-9]+-[0-9]+$" | xargs -P ${2:-3} -n 1 tools/seeded_one.sh
